@@ -221,13 +221,16 @@ def run(ctx):
     ctx.assume("receivers are fed complete packets; end of the scripted stream is EOF (b'' from recv)")
     ctx.assume("compression context is re-created at every key exchange (RFC 4253 6.2) in the reference")
     if ctx.quick:
-        ctx.explore(case_strategy(True, exclude_stale=excl), lambda c: execute(ctx, c), ctx.scale(1500, 0))
+        ctx.explore(case_strategy(True, exclude_stale=excl), lambda c: execute(ctx, c), ctx.scale(1100, 0))
     else:
         triples = [(c, m, z) for c in pkt.CIPHERS for m in pkt.MACS for z in pkt.COMPRESSIONS]
         mine = [t for i, t in enumerate(triples) if i % ctx.nworkers == ctx.worker]
         per = max(40, 3300 // max(1, len(mine)))
         for i, t in enumerate(mine):
+            before = ctx._last_fail
             ctx.explore(case_strategy(False, first_c2s=t, exclude_stale=excl), lambda c: execute(ctx, c), per, seed_offset=1 + triples.index(t))
+            if ctx._last_fail is not before and ctx.unknown:
+                break  # an unlisted violation was found and shrunk; do not shrink it again for every triple
     if ctx.quick:  # (per-worker numbers would be summed by the merger; thorough has the class histogram)
         cls = ctx.classes
         ctx.note("min_cases_per_cipher", "%d" % min(cls.get("cipher:" + c, 0) for c in pkt.CIPHERS))
